@@ -304,6 +304,7 @@ def strip_prefix (s pat : Str) : Option Str :=
 def strip_suffix (s pat : Str) : Option Str :=
   if ends_with s pat then some ⟨s.chars.take (s.chars.length - pat.chars.length)⟩ else none
 def append (a b : Str) : Str := ⟨a.chars ++ b.chars⟩
+instance : REq Str := ⟨fun a b => .ok (decide (a.chars = b.chars))⟩
 /-- `s.is_empty()` -/
 def is_empty (s : Str) : Bool := s.chars.isEmpty
 /-- `s.is_char_boundary(i)`: `i` is 0, the length, or the offset of a character -/
